@@ -27,8 +27,9 @@ def gen_test_class(rng, pkg, name, path):
     members, xmethods = [], []
     # helpers
     helpers = []
-    for h in range(rng.randint(0, 2)):
-        has_assert = rng.random() < 0.5
+    nh = rng.randint(0, 3)
+    for h in range(nh):
+        has_assert = rng.random() < 0.5 if nh < 2 else (h % 2 == 0) == (rng.random() < 0.8)
         body = [J.ExprS(J.Call(None, "verifyState" if has_assert else "prepare", [J.Lit(str(h))]))]
         if rng.random() < 0.5: body.append(J.ExprS(J.Call(J.Name("repo"), "load", [])))
         hm = J.Method("helper%d" % h, None, [], body, ["private"])
@@ -73,6 +74,10 @@ def gen_test_class(rng, pkg, name, path):
             add(rng.choice(["call", "assert", "print", "new", "helper"]))   # exactly one
         elif shape < 0.4:
             for _ in range(rng.randint(3, 7)): add("assert")               # duplicate-assert boundary
+            if rng.random() < 0.5: add("call")
+        elif shape < 0.52 and len(helpers) >= 2:
+            # no direct assertion: several helpers of the class, asserting and plain ones in any order
+            for _ in range(rng.randint(2, 4)): add("helper")
             if rng.random() < 0.5: add("call")
         else:
             for _ in range(rng.randint(1, 6)):
